@@ -214,7 +214,14 @@ func main() {
 				}
 				res := make([]uint64, 0, len(ops))
 				for _, op := range ops {
-					res = append(res, run(op))
+					d := run(op)
+					for r := 1; r < tr.Reps; r++ {
+						if d2 := run(op); d2 != d {
+							d = d2 ^ 0xBAD // any differing repetition poisons the digest
+							break
+						}
+					}
+					res = append(res, d)
 				}
 				out[g] = res
 			}(g, ops)
